@@ -860,6 +860,15 @@ func (schema *Schema) PermitsNull() bool {
 
 // IsEmpty tells whether schema is equivalent to the empty schema `{}`.
 func (schema *Schema) IsEmpty() bool {
+	return schema.isEmpty(nil)
+}
+
+// isEmpty: seen holds the schemas on the way down; a schema that is met again constrains
+// nothing beyond what its other keywords say (a recursive schema would otherwise never be left).
+func (schema *Schema) isEmpty(seen map[*Schema]struct{}) bool {
+	if _, again := seen[schema]; again {
+		return true
+	}
 	if schema.Type != nil || schema.Format != "" || len(schema.Enum) != 0 ||
 		schema.UniqueItems || schema.ExclusiveMin || schema.ExclusiveMax ||
 		schema.Nullable || schema.ReadOnly || schema.WriteOnly || schema.AllowEmptyValue ||
@@ -873,17 +882,22 @@ func (schema *Schema) IsEmpty() bool {
 	if schema.Not != nil {
 		return false
 	}
-	if ap := schema.AdditionalProperties.Schema; ap != nil && ap.Value != nil && !ap.Value.IsEmpty() {
+	if seen == nil {
+		seen = make(map[*Schema]struct{})
+	}
+	seen[schema] = struct{}{}
+	defer delete(seen, schema)
+	if ap := schema.AdditionalProperties.Schema; ap != nil && ap.Value != nil && !ap.Value.isEmpty(seen) {
 		return false
 	}
 	if apa := schema.AdditionalProperties.Has; apa != nil && !*apa {
 		return false
 	}
-	if items := schema.Items; items != nil && items.Value != nil && !items.Value.IsEmpty() {
+	if items := schema.Items; items != nil && items.Value != nil && !items.Value.isEmpty(seen) {
 		return false
 	}
 	for _, s := range schema.Properties {
-		if ss := s.Value; ss != nil && !ss.IsEmpty() {
+		if ss := s.Value; ss != nil && !ss.isEmpty(seen) {
 			return false
 		}
 	}
@@ -892,17 +906,17 @@ func (schema *Schema) IsEmpty() bool {
 		return false
 	}
 	for _, s := range schema.OneOf {
-		if ss := s.Value; ss != nil && !ss.IsEmpty() {
+		if ss := s.Value; ss != nil && !ss.isEmpty(seen) {
 			return false
 		}
 	}
 	for _, s := range schema.AnyOf {
-		if ss := s.Value; ss != nil && !ss.IsEmpty() {
+		if ss := s.Value; ss != nil && !ss.isEmpty(seen) {
 			return false
 		}
 	}
 	for _, s := range schema.AllOf {
-		if ss := s.Value; ss != nil && !ss.IsEmpty() {
+		if ss := s.Value; ss != nil && !ss.isEmpty(seen) {
 			return false
 		}
 	}
